@@ -246,11 +246,78 @@ class _ReverseMethods(ast.NodeTransformer):
         return node
 
 
+class _HoistSomeValues(ast.NodeTransformer):
+    """Extract-variable refactoring on a random subset of statements: `tgt = expr` -> `_hN = expr; tgt = _hN`, `return expr` ->
+    `_hN = expr; return _hN`.  The right-hand side is evaluated before anything of the target, so the order of evaluation is
+    unchanged."""
+    SHARE = 0.15
+
+    def __init__(self, seed=1):
+        import random
+        self.rnd = random.Random(seed)
+        self.n = 0
+
+    def _block(self, stmts):
+        out = []
+        for st in stmts:
+            st = self.visit(st)
+            take = False
+            if isinstance(st, ast.Assign) and len(st.targets) == 1 and not isinstance(st.value, (ast.Name, ast.Constant)) \
+                    and not isinstance(st.targets[0], (ast.Tuple, ast.List)):
+                take = True
+            elif isinstance(st, ast.Return) and st.value is not None and not isinstance(st.value, (ast.Name, ast.Constant)):
+                take = True
+            if take and self.rnd.random() < self.SHARE:
+                self.n += 1
+                nm = "_h%d" % self.n
+                out.append(ast.Assign(targets=[ast.Name(id=nm, ctx=ast.Store())], value=st.value))
+                st.value = ast.Name(id=nm, ctx=ast.Load())
+            out.append(st)
+        return out
+
+    def generic_visit(self, node):
+        for field in ("body", "orelse", "finalbody"):
+            v = getattr(node, field, None)
+            if isinstance(v, list) and v and isinstance(v[0], ast.stmt):
+                if isinstance(node, (ast.Module, ast.ClassDef)):
+                    setattr(node, field, [self.visit(x) for x in v])     # only inside functions
+                else:
+                    setattr(node, field, self._block(v))
+        if isinstance(node, ast.Try):
+            for h in node.handlers:
+                h.body = self._block(h.body)
+        return node
+
+
+class _HoistSomeValues2(_HoistSomeValues):
+    def __init__(self):
+        super().__init__(seed=2)
+
+
+class _SwapSomeIfArms(ast.NodeTransformer):
+    """`if c: A else: B` -> `if not c: B else: A` on a random subset of two-armed ifs (no elif chains)."""
+    SHARE = 0.3
+
+    def __init__(self, seed=3):
+        import random
+        self.rnd = random.Random(seed)
+
+    def visit_If(self, node):
+        self.generic_visit(node)
+        if node.orelse and not (len(node.orelse) == 1 and isinstance(node.orelse[0], ast.If)) and self.rnd.random() < self.SHARE:
+            node.test = ast.UnaryOp(op=ast.Not(), operand=node.test)
+            node.body, node.orelse = node.orelse, node.body
+        return node
+
+
 TWINS = {
     "unparse-roundtrip": None,
     "rename-locals": _RenameLocals,
     "insert-noops-and-docstrings": _InsertNoops,
     "reverse-method-order": _ReverseMethods,
+    "extract-variable-15pct-seed1": _HoistSomeValues,
+    "extract-variable-15pct-seed2": _HoistSomeValues2,
+    "swap-if-arms-30pct": _SwapSomeIfArms,
 }
 
 
